@@ -140,6 +140,7 @@ type c18thr struct {
 	result  []int64
 	events  []c18event
 	srcUsed int
+	seenDone bool
 }
 
 type c18handle struct {
@@ -384,6 +385,9 @@ func c18newEnv(caseID string) *c18env {
 	return e
 }
 
+// base is the stamp a freshly added tract carries: initialStamp truncated to the 58 bits tractData keeps.
+func (e *c18env) base() uint64 { return makeTractData(0, e.s.initialStamp).stamp() }
+
 func (e *c18env) close() {
 	e.s.lock.Lock()
 	root := e.s.disks[0].root
@@ -456,13 +460,13 @@ func (e *c18env) runOp(th *c18thr) []int64 {
 		sz, st, err := e.s.Stat(ctx, id, int(o.a1))
 		rel := int64(-1)
 		if st != 0 {
-			rel = int64(st - e.s.initialStamp)
+			rel = int64(st - e.base())
 		}
 		return []int64{int64(err), sz, rel}
 	case c18SetVersion:
 		var cond uint64
 		if o.a2 != 0 {
-			cond = e.s.initialStamp + uint64(o.a2-1)
+			cond = e.base() + uint64(o.a2-1)
 		}
 		v, err := e.s.SetVersion(id, int(o.a1), cond)
 		return []int64{int64(err), int64(v)}
@@ -576,7 +580,7 @@ func (e *c18env) scan(ntr int) []int64 {
 		td, ok := e.s.tracts[id]
 		e.s.lock.Unlock()
 		if ok {
-			l.Add(1, int64(td.stamp()-e.s.initialStamp))
+			l.Add(1, int64(td.stamp()-e.base()))
 		} else {
 			l.Add(0, 0)
 		}
@@ -602,6 +606,40 @@ func (e *c18env) scan(ntr int) []int64 {
 	return l
 }
 
+// ---------- buffered case trace ----------
+// A case is written to C18.trace, or to C18.known.trace when a monitor reported something in it: the
+// correspondence driver prints a bounded number of mismatches per file, and the (many) verdict lines of cases
+// that exhibit an already-known defect must not crowd out a fresh mismatch in the other cases.
+type c18line struct {
+	op bool
+	xs []int64
+}
+type c18buf struct {
+	id      string
+	lines   []c18line
+	flagged bool
+}
+
+func (b *c18buf) Case(id string)   { b.id = id }
+func (b *c18buf) Op(xs ...int64)   { b.lines = append(b.lines, c18line{true, append([]int64(nil), xs...)}) }
+func (b *c18buf) Obs(xs ...int64)  { b.lines = append(b.lines, c18line{false, append([]int64(nil), xs...)}) }
+func (b *c18buf) flush(clean, known *vw.Trace) {
+	t := clean
+	if b.flagged {
+		t = known
+	}
+	t.Case(b.id)
+	for _, l := range b.lines {
+		if l.op {
+			t.Op(l.xs...)
+		} else {
+			t.Obs(l.xs...)
+		}
+	}
+}
+
+var c18cur *c18buf
+
 // ---------- a case ----------
 type c18init struct {
 	present bool
@@ -625,6 +663,9 @@ type c18case struct {
 }
 
 func c18report(c *c18case, sig, what string, detail map[string]interface{}) {
+	if c18cur != nil {
+		c18cur.flagged = true
+	}
 	vw.Report(vw.Violation{Property: "C18", Signature: sig, What: what, Case: c.id, Detail: detail})
 }
 
@@ -636,9 +677,26 @@ func c18opsDesc(c *c18case) string {
 	return strings.Join(s, " ")
 }
 
-func c18errName(e int64) string { return core.Error(e).String() }
+func c18errName(e int64) string {
+	switch core.Error(e) {
+	case core.NoError:
+		return "NoError"
+	case core.ErrStampChanged:
+		return "ErrStampChanged"
+	case core.ErrTooBusy:
+		return "ErrTooBusy"
+	case core.ErrVersionMismatch:
+		return "ErrVersionMismatch"
+	case core.ErrNoSuchTract:
+		return "ErrNoSuchTract"
+	}
+	return fmt.Sprintf("E%d", e)
+}
 
-func c18runCase(tr *vw.Trace, c *c18case) {
+func c18runCase(clean, known *vw.Trace, c *c18case) {
+	tr := &c18buf{}
+	c18cur = tr
+	defer func() { c18cur = nil; tr.flush(clean, known) }()
 	tr.Case(c.id)
 	e := c18newEnv(c.id)
 	defer e.close()
@@ -693,6 +751,10 @@ func c18runCase(tr *vw.Trace, c *c18case) {
 		}
 		st := c.choose(startable, parked, stepNo, e.thr)
 		th := e.thr[st.thread]
+		doneBefore := make([]bool, len(e.thr))
+		for i, x := range e.thr {
+			doneBefore[i] = x.state == c18stDone
+		}
 		var op vw.L
 		var ok bool
 		if st.start {
@@ -724,18 +786,24 @@ func c18runCase(tr *vw.Trace, c *c18case) {
 			}
 		}
 		e.mu.Unlock()
-		if th.state == c18stDone && len(th.result) > 0 && core.Error(th.result[0]) == core.ErrTooBusy && th.op.kind != c18Check {
-			long := false
-			for _, o := range e.thr {
-				if o != th && o.op.tract == th.op.tract && o.op.kind == c18Pull && o.state != c18stNotStarted && o.state != c18stDone {
-					long = true
-				}
+		for _, d := range e.thr {
+			if d.state != c18stDone || d.seenDone {
+				continue
 			}
-			if !long {
-				vw.Stat("mon.busy-without-long-writer", 1)
-				c18reportOnce(c, "busy-without-long-writer-op="+c18opNames[th.op.kind],
-					"an operation returned ErrTooBusy although no long-running copy-in holds the tract (it met ordinary readers/writers and should have waited)",
-					map[string]interface{}{"ops": c18opsDesc(c), "step": stepNo})
+			d.seenDone = true
+			if len(d.result) > 0 && core.Error(d.result[0]) == core.ErrTooBusy && d.op.kind != c18Check {
+				long := false
+				for _, o := range e.thr {
+					if o != d && o.op.tract == d.op.tract && o.op.kind == c18Pull && o.state != c18stNotStarted && !doneBefore[o.idx] {
+						long = true
+					}
+				}
+				if !long {
+					vw.Stat("mon.busy-without-long-writer", 1)
+					c18reportOnce(c, "busy-without-long-writer-op="+c18opNames[d.op.kind],
+						"an operation returned ErrTooBusy although no long-running copy-in holds the tract (it met ordinary readers/writers and should have waited)",
+						map[string]interface{}{"ops": c18opsDesc(c), "step": stepNo})
+				}
 			}
 		}
 	}
@@ -968,6 +1036,10 @@ func TestVerifC18(t *testing.T) {
 	root := vw.NewRng(vw.Seed())
 	tr := vw.OpenTrace("C18.trace")
 	defer tr.Close()
+	known := vw.OpenTrace("C18.known.trace")
+	defer known.Close()
+	mtr := vw.OpenTrace("C18.mgr.trace")
+	defer mtr.Close()
 	defer vw.Finish("C18")
 
 	// ---- part 1: sequential, exhaustive in the failure position ----
@@ -997,7 +1069,7 @@ func TestVerifC18(t *testing.T) {
 					}
 					return c18step{thread: 0}
 				}
-				c18runCase(tr, c)
+				c18runCase(tr, known, c)
 				nseq++
 				vw.Stat("seq.cases", 1)
 				vw.Stat(fmt.Sprintf("seq.calls=%d", calls), 1)
@@ -1050,7 +1122,7 @@ func TestVerifC18(t *testing.T) {
 			}
 			return st
 		}
-		c18runCase(tr, c)
+		c18runCase(tr, known, c)
 		vw.Stat("conc.cases", 1)
 		vw.Stat(fmt.Sprintf("conc.ops=%d.tracts=%d", nops, ntr), 1)
 		vw.Distinct(c18opsDesc(c))
@@ -1061,7 +1133,7 @@ func TestVerifC18(t *testing.T) {
 	vw.Stat("cases", int64(nseq+nconc))
 
 	// ---- part 3: Manager open-file accounting (F4) ----
-	c18managerPart(tr, root)
+	c18managerPart(mtr, root)
 }
 
 // ---------- part 3: Manager ----------
